@@ -304,6 +304,8 @@ type listObs struct {
 	trunc    bool
 	partial  bool // a concurrent listing that saw a log still growing afterwards
 	skipped  bool // a concurrent listing not executed because the log was still empty
+
+	tokensOnly bool // observed through ListTokens (known finding mode): payloads not compared
 }
 
 // expected computes the reference answer
@@ -363,7 +365,7 @@ func (o *listObs) verifyExact() error {
 			return fmt.Errorf("%s: ListEntries(from=%s,max=%d) entry %d has token %q, want %q (token order / no duplicates); got %v want %v",
 				o.what, o.from, o.max, i, o.got[i].Token, exp[i].Token, gotTokens(o.got), modelTokens(exp))
 		}
-		if o.got[i].Payload != exp[i].Payload {
+		if !o.tokensOnly && o.got[i].Payload != exp[i].Payload {
 			return fmt.Errorf("%s: ListEntries(from=%s,max=%d) entry %d (token %s) payload changed: got %s want %s",
 				o.what, o.from, o.max, i, exp[i].Token, short(o.got[i].Payload), short(exp[i].Payload))
 		}
@@ -504,11 +506,37 @@ type fataler interface {
 	Fatalf(string, ...interface{})
 }
 
+// knownRead is the id under which the defect of the unchanged tree (DESIGN §5 row 23: ListEntries
+// cannot read back what Add wrote) may be listed as a known finding.  While it is listed AND still
+// reproduces, listings are observed through wal.ListTokens (tokens, order, window, max, next are
+// still checked; payloads are the excluded input class).  Once the canary passes, nothing is excluded.
+const knownRead = "C19-listentries-read"
+
+func degraded() bool {
+	return canary() != nil && hx.Known(knownRead)
+}
+
 func needCanary(t fataler) {
-	if err := canary(); err != nil {
+	if err := canary(); err != nil && !hx.Known(knownRead) {
 		stats.Violation(err.Error())
 		t.Fatalf("%v", err)
 	}
+}
+
+// list performs the listing of o through the WAL under test
+func list(w *wal.WAL, o *listObs) {
+	if degraded() {
+		stats.Count("excluded_"+knownRead, 1)
+		var toks []string
+		toks, o.next, o.err = w.ListTokens(ctx, o.from, o.max)
+		o.tokensOnly = true
+		o.got = nil
+		for _, t := range toks {
+			o.got = append(o.got, model.Entry{Token: t})
+		}
+		return
+	}
+	o.got, o.next, o.err = w.ListEntries(ctx, o.from, o.max)
 }
 
 // ---------------------------------------------------------------------------------------------
@@ -809,7 +837,7 @@ func runCase(c caseT) (*runInfo, error) {
 					o.max = l.Max
 					o.what = fmt.Sprintf("concurrent listing %s#%d %+v", ls.Name, i, l)
 					curObs = o
-					o.got, o.next, o.err = w.ListEntries(ctx, o.from, o.max)
+					list(w, o)
 					curObs = nil
 				}
 			}); err != nil {
@@ -868,7 +896,7 @@ func runCase(c caseT) (*runInfo, error) {
 	for i, l := range c.Final {
 		o := &listObs{what: fmt.Sprintf("final listing #%d %+v", i, l), from: l.resolve(tokensOf(all), wd.gen.Now()), max: l.Max, visible: all}
 		err, hung, panicked := hx.Guard(20*time.Second, func() error {
-			o.got, o.next, o.err = fw.ListEntries(ctx, o.from, o.max)
+			list(fw, o)
 			return nil
 		})
 		if hung || panicked {
@@ -978,7 +1006,7 @@ func record(prop string, nApp int, payloads []payloadSpec, info *runInfo, sample
 }
 
 func checkCase(t fataler, c caseT) {
-	hx.Journal(c)
+	hx.Journal(journalDoc{Kind: "sched", Sched: &c})
 	var info *runInfo
 	err, hung, panicked := hx.Guard(120*time.Second, func() error {
 		var e error
@@ -986,7 +1014,7 @@ func checkCase(t fataler, c caseT) {
 		return e
 	})
 	if err != nil {
-		b, _ := json.Marshal(c)
+		b, _ := json.Marshal(journalDoc{Kind: "sched", Sched: &c})
 		pre := ""
 		if hung {
 			pre = "HANG: "
@@ -1001,6 +1029,43 @@ func checkCase(t fataler, c caseT) {
 		ps = append(ps, a.Adds...)
 	}
 	record("sched", len(c.Appenders), ps, info, func() interface{} { return c })
+}
+
+// journalDoc is what is journalled before a case runs and printed when it fails; it is also the
+// input of TestReplayJournal
+type journalDoc struct {
+	Kind  string    `json:"kind"`
+	Sched *caseT    `json:"sched,omitempty"`
+	Big   *bigCase  `json:"big,omitempty"`
+	Free  *freeCase `json:"free,omitempty"`
+}
+
+// TestReplayJournal re-executes one case given as a JSON document (the "case=" part of a failure
+// message, or the journal left behind by a dead process) in the file named by $VERIF_REPLAY_JOURNAL
+func TestReplayJournal(t *testing.T) {
+	p := os.Getenv("VERIF_REPLAY_JOURNAL")
+	if p == "" {
+		t.Skip("no journal given")
+	}
+	b, err := os.ReadFile(p)
+	if err != nil {
+		t.Fatalf("%v", err)
+	}
+	var d journalDoc
+	if err := json.Unmarshal(b, &d); err != nil {
+		t.Fatalf("journal %s: %v", p, err)
+	}
+	needCanary(t)
+	switch {
+	case d.Kind == "sched" && d.Sched != nil:
+		checkCase(t, *d.Sched)
+	case d.Kind == "big" && d.Big != nil:
+		checkBig(t, *d.Big)
+	case d.Kind == "free" && d.Free != nil:
+		checkFree(t, *d.Free)
+	default:
+		t.Fatalf("journal %s: unknown kind %q (pinned and fuzz cases are replayed by their own test)", p, d.Kind)
+	}
 }
 
 // TestPropSched: scheduler-owned interleavings of appender and lister processes
@@ -1066,7 +1131,7 @@ func runBig(c bigCase) (*runInfo, []payloadSpec, error) {
 	for i, l := range c.Lists {
 		o := &listObs{what: fmt.Sprintf("listing #%d %+v over %d entries", i, l, c.N), from: l.resolve(tokensOf(all), gen.Now()), max: l.Max, visible: all}
 		err, hung, panicked := hx.Guard(60*time.Second, func() error {
-			o.got, o.next, o.err = ws2[0].ListEntries(ctx, o.from, o.max)
+			list(ws2[0], o)
 			return nil
 		})
 		if hung || panicked {
@@ -1102,7 +1167,7 @@ func drawBig(t *rapid.T) bigCase {
 }
 
 func checkBig(t fataler, c bigCase) {
-	hx.Journal(c)
+	hx.Journal(journalDoc{Kind: "big", Big: &c})
 	var info *runInfo
 	var ps []payloadSpec
 	err, hung, panicked := hx.Guard(180*time.Second, func() error {
@@ -1111,7 +1176,7 @@ func checkBig(t fataler, c bigCase) {
 		return e
 	})
 	if err != nil {
-		b, _ := json.Marshal(c)
+		b, _ := json.Marshal(journalDoc{Kind: "big", Big: &c})
 		pre := ""
 		if hung {
 			pre = "HANG: "
@@ -1265,7 +1330,7 @@ func runFree(c freeCase) (*runInfo, error) {
 					r.from, r.max = l.resolve(snap, gen.Now()), l.Max
 					r.what = fmt.Sprintf("concurrent listing %s#%d %+v", name, j, l)
 					r.startEv = atomic.AddInt64(&ev, 1)
-					r.got, r.next, r.err = w.ListEntries(ctx, r.from, r.max)
+					list(w, &r.listObs)
 					r.endEv = atomic.AddInt64(&ev, 1)
 				}
 			}); err != nil {
@@ -1309,7 +1374,7 @@ func runFree(c freeCase) (*runInfo, error) {
 	fw := wal.New(gen.View("final"), ws.View("final"), wal.Logger(hx.Nop))
 	for i, l := range c.Final {
 		o := &listObs{what: fmt.Sprintf("final listing #%d %+v", i, l), from: l.resolve(tokensOf(all), gen.Now()), max: l.Max, visible: all}
-		o.got, o.next, o.err = fw.ListEntries(ctx, o.from, o.max)
+		list(fw, o)
 		info.lists = append(info.lists, o)
 		if err := o.verifyExact(); err != nil {
 			return info, err
@@ -1341,7 +1406,7 @@ func verifyRelational(r *freeListRec, adds []*freeAddRec, byTok map[string]*free
 		if !ok {
 			return fmt.Errorf("%s: returned token %q which was never issued", r.what, g.Token)
 		}
-		if a.payload != g.Payload {
+		if !r.tokensOnly && a.payload != g.Payload {
 			return fmt.Errorf("%s: entry %s payload changed: got %s want %s", r.what, g.Token, short(g.Payload), short(a.payload))
 		}
 		if i > 0 && !(r.got[i-1].Token < g.Token) {
@@ -1373,7 +1438,7 @@ func verifyRelational(r *freeListRec, adds []*freeAddRec, byTok map[string]*free
 }
 
 func checkFree(t fataler, c freeCase) {
-	hx.Journal(c)
+	hx.Journal(journalDoc{Kind: "free", Free: &c})
 	var info *runInfo
 	err, hung, panicked := hx.Guard(120*time.Second, func() error {
 		var e error
@@ -1381,7 +1446,7 @@ func checkFree(t fataler, c freeCase) {
 		return e
 	})
 	if err != nil {
-		b, _ := json.Marshal(c)
+		b, _ := json.Marshal(journalDoc{Kind: "free", Free: &c})
 		pre := ""
 		if hung {
 			pre = "HANG: "
@@ -1417,9 +1482,7 @@ func FuzzRoundTrip(f *testing.F) {
 	f.Add(strings.Repeat("x", 1024), strings.Repeat("y\n", 700), uint16(1500), uint16(1000))
 	f.Add("\xff\xfe\x00", nonASCII, uint16(999), uint16(2))
 	f.Fuzz(func(t *testing.T, p1, p2 string, advMs uint16, max uint16) {
-		if err := canary(); err != nil {
-			t.Fatalf("%v", err)
-		}
+		needCanary(t)
 		hx.Journal(map[string]interface{}{"p1": p1, "p2": p2, "adv_ms": advMs, "max": max})
 		err, hung, panicked := hx.Guard(30*time.Second, func() error {
 			gen, ws := memstore.NewBackend("gen"), memstore.NewBackend("wal")
@@ -1442,7 +1505,7 @@ func FuzzRoundTrip(f *testing.F) {
 			m := int(max)%1002 + 1
 			for _, from := range []string{adds[0].token, adds[1].token} {
 				o := &listObs{what: "fuzz listing", from: from, max: m, visible: all}
-				o.got, o.next, o.err = w.ListEntries(ctx, from, m)
+				list(w, o)
 				if err := o.verifyExact(); err != nil {
 					return err
 				}
